@@ -158,6 +158,35 @@ def gen_case(rng, method, nd, variant, via, tier):
             'pkind': ('out' if kinds & {'below', 'above'} else 'in') + ('+poly' if poly else '+table')}
 
 
+def gen_history(rng, method, nd, variant, via):
+    """One interpolant object, a sequence of single-point calls; with extrapolate=True out-of-table points
+    are queried before and between in-bounds points (caches keyed by cell must not leak between them)."""
+    c = None
+    while c is None:
+        c = gen_case(rng, method, nd, variant, via, 'quick')
+    grids = [[fj(v) for v in g] for g in c['grids']]
+    extrap = rng.random() < 0.7
+    npts = rng.randrange(3, 7)
+    pts = []
+    for j in range(npts):
+        pt = []
+        for g in grids:
+            if extrap and (rng.random() < (0.7 if j == 0 else 0.3)):
+                k = rng.choice(['below', 'above'])
+            else:
+                k = rng.choice(['node', 'lo', 'hi', 'cell', 'cell', 'end'])
+            if k == 'end':      # interior of the first / last cell, next to the extrapolation regions
+                i = rng.choice([0, len(g) - 2])
+                pt.append(g[i] + (g[i + 1] - g[i]) * Fr(rng.randrange(1, 4), 4))
+            else:
+                pt.append(gen_coord(rng, g, k))
+        pts.append(pt)
+    out = any(p[i] < g[0] or p[i] > g[-1] for p in pts for i, g in enumerate(grids))
+    c.update({'extrap': extrap, 'pts': [[pj(v) for v in p] for p in pts], 'history': True,
+              'pkind': ('out' if out else 'in') + ('+poly' if c['poly'] else '+table')})
+    return c
+
+
 def boundary_cases():
     """Boundary nodes of grids of every sign class, every method (the documented in-bounds extremes)."""
     out = []
@@ -212,12 +241,20 @@ class C15(Spec):
             '0 inside a cell, starting at 0, all positive), uniform / power-of-two / arbitrary spacings, dimension 1-3, '
             'five methods, general and fixed-dimension variants, InterpND and MetaModelStructuredComp, tables of random '
             'values and of tensor polynomials of the method degree, 1-4 query points per call drawn from nodes, '
-            'boundary nodes, cell interiors and outside points, extrapolate on/off; bracket search exhaustive over '
+            'boundary nodes, cell interiors and outside points, extrapolate on/off; histories: one interpolant object, '
+            '3-6 single-point calls mixing out-of-table (extrapolate=True) and in-bounds points; bracket search exhaustive over '
             'cached index x node/midpoint/outside queries; every case is a distinct configuration')
 
     def gen(self, tier, rng):
         cases = boundary_cases() + bracket_cases(rng, tier)
-        count = 1300 if tier == 'quick' else 26000
+        count = 1000 if tier == 'quick' else 26000
+        nh = 450 if tier == 'quick' else 4500
+        for k in range(nh):
+            method = METHODS[k % len(METHODS)]
+            nd = rng.choice([1, 1, 1, 2, 3]) if method != 'akima' else rng.choice([1, 1, 1, 1, 2])
+            variant = 'fixed' if (method, nd) in FIXED and rng.random() < 0.7 else 'general'
+            via = 'comp' if rng.random() < 0.1 else 'interp'
+            cases.append(gen_history(rng, method, nd, variant, via))
         k = 0
         while k < count:
             method = METHODS[k % len(METHODS)]
@@ -243,7 +280,10 @@ class C15(Spec):
     def shrink(self, c):
         if c['kind'] != 'interp':
             return
-        if len(c['pts']) > 1:
+        if len(c['pts']) > 1 and c.get('history'):
+            for j in range(len(c['pts'])):
+                yield dict(c, pts=c['pts'][:j] + c['pts'][j + 1:])
+        elif len(c['pts']) > 1:
             for j in range(len(c['pts'])):
                 yield dict(c, pts=[c['pts'][j]])
         if c['via'] == 'comp':
@@ -275,14 +315,21 @@ def main(tier):
     core._oracle_pass(spec, v, cases, results, wd)
 
     bad_cases = []
-    for grp, tol in (('exact', None), ('tol', Fr(1, 10 ** 9))):
-        idx = [i for i in range(len(cases)) if spec.compare_case(cases[i], results[i]) and
-               (cases[i].get('cmp', 'exact') == grp)]
+    def group(c):
+        # extrapolated values of the coefficient-form (fixed-dimension) classes and of the higher-order
+        # methods lose digits to cancellation: out-of-table points of non-dyadic-exact cases are compared
+        # to 1e-6, everything in-bounds to 1e-9 (or exactly)
+        g = c.get('cmp', 'exact')
+        if g == 'tol' and c.get('kind') == 'interp' and c.get('pkind', '').startswith('out'):
+            return 'loose'
+        return g
+    for grp, tol in (('exact', None), ('tol', Fr(1, 10 ** 9)), ('loose', Fr(1, 10 ** 6))):
+        idx = [i for i in range(len(cases)) if spec.compare_case(cases[i], results[i]) and group(cases[i]) == grp]
         got = [spec.got_term(cases[i]) for i in idx]
         want = [spec.want_term(cases[i], results[i]) for i in idx]
         bad, errors, cmd = core.coq_mismatches(wd, spec.imports, got, want, shard=320, tol=tol, tag='cases_' + grp)
         v.add_correspondence('model-vs-implementation (%s)' % grp, len(idx), len(bad),
-                             'E3 exact' if tol is None else 'E4 rel 1e-9', cmd)
+                             'E3 exact' if tol is None else 'E4 rel %s' % ('1e-9' if grp == 'tol' else '1e-6 (out-of-table points)'), cmd)
         if errors:
             v.broke('correspondence:model-evaluation-failed (%s)' % grp)
             v.cov['broken_detail'] = json.dumps(errors[:2])[-3000:]
